@@ -316,10 +316,10 @@ func c11Run(c *Ctx, idx int) CaseResult {
 func init() {
 	register(&Prop{
 		ID: "C11", Level: "exploration", Batch: 4, PerCaseTimeout: 120 * time.Second,
-		Rule:  "case i = one store with 3-8 plans (every third store stale-heavy: several stale Running plans adjacent in search order): never started, Completed, Failed, Running with recent activity (a reachable write-prefix state), Running with every state time shifted into the past by {max+1min, 10*max} through the vault's Update* calls; configuration i mod 4 in {WithMaxLastUpdate(1 min), default 30 min, 2 h, WithNoRecovery}; fresh ages {0, max-1min}; a recording vault and the scripted plugins observe writes and invocations per plan; distinct by (configuration, per-plan class/prefix/age)",
-		Cases: nCases(48, 1200),
-		Run:   c11Run,
-		RaceAttr: raceHas("execute.(*recover)", "execute.runningToFailed", "execute.lastUpdate"),
+		Rule:          "case i = one store with 3-8 plans (every third store stale-heavy: several stale Running plans adjacent in search order): never started, Completed, Failed, Running with recent activity (a reachable write-prefix state), Running with every state time shifted into the past by {max+1min, 10*max} through the vault's Update* calls; configuration i mod 4 in {WithMaxLastUpdate(1 min), default 30 min, 2 h, WithNoRecovery}; fresh ages {0, max-1min}; a recording vault and the scripted plugins observe writes and invocations per plan; distinct by (configuration, per-plan class/prefix/age)",
+		Cases:         nCases(48, 1200),
+		Run:           c11Run,
+		RaceAttr:      raceHas("execute.(*recover)", "execute.runningToFailed", "execute.lastUpdate"),
 		MinNontrivial: 30,
 		Assumptions:   []string{"ages are chosen one minute away from the configured maximum (the SUT compares against time.Now()); equality at the boundary is not explored", "sqlite only"},
 	})
